@@ -6,6 +6,7 @@
    file. *)
 open Common
 open Mtbl_model
+type string = Stdlib.String.t
 
 external c_set_mmap_mode : int -> unit = "vp_set_mmap_mode"
 
